@@ -1076,10 +1076,10 @@ func main() {
 		r.Finish(500)
 	}
 	r := lib.Start("C26", "exploration")
-	r.Assume("validity of a signature is known by construction: the harness signs with the aws-sdk-go v4 signer / its own V2, aws-chunked and POST-policy signers written from the AWS documentation, and every mutation other than 'none' (and 'bad-chunk-sig', whose seed signature stays valid) breaks what was signed")
+	r.Assume("validity of a signature is known by construction: the harness signs with the aws-sdk-go v4 signer / its own V2, aws-chunked and POST-policy signers written from the AWS documentation, and every mutation other than 'none', 'stale-date' and 'bad-chunk-sig' (whose seed signature stays valid) breaks what was signed")
 	r.Assume("reference permission table (route -> action) is stated in the driver (routes[].Need); where two readings are defensible (HeadBucket, list parts/uploads, get tagging, DeleteBucket) any of the listed actions suffices")
 	r.Assume("the identity-file semantics used as reference: Admin | Action | Action:bucket | Admin:bucket, a trailing * makes an entry a prefix pattern")
-	r.Assume("an expired presigned URL / expired POST policy counts as not valid; a V4 header signature with an old X-Amz-Date is not generated (the statement does not speak about replay windows)")
+	r.Assume("an expired presigned URL / expired POST policy counts as not valid; a correct V4 header signature dated two days ago (mutation stale-date) counts as valid, its acceptance is only counted (the statement does not speak about replay windows)")
 	r.Assume("the S3 gateway's own background calls (SubscribeMetadata) are excluded by method name; every other stand-in call between sending a request and its response (plus late arrivals carrying the request's tag header) is attributed to that request")
 
 	st, err := lib.StartFilerStandIn(bucketsPath, buckets)
